@@ -243,6 +243,69 @@ def coq_eval(ctx, name, text, timeout=900):
     return r.returncode == 0, r.stdout + r.stderr
 
 
+def coq_eval_many(ctx, name, texts, timeout=900, jobs=14):
+    """evaluate several generated files concurrently; returns list of (ok, output) in order"""
+    from concurrent.futures import ThreadPoolExecutor
+    with ThreadPoolExecutor(max_workers=jobs) as ex:
+        futs = [ex.submit(coq_eval, ctx, "%s_%d" % (name, i), t, timeout) for i, t in enumerate(texts)]
+        return [f.result() for f in futs]
+
+
+def hash_bytes(b):
+    if isinstance(b, str):
+        b = bytes.fromhex(b)
+    p = (1 << 61) - 1
+    acc = len(b)
+    i = 0
+    while len(b) - i >= 7:
+        acc = (acc * 1000003 + int.from_bytes(b[i:i + 7], "big") + 1) % p
+        i += 7
+    if i < len(b):
+        acc = (acc * 1000003 + int.from_bytes(b[i:], "big") + 7) % p
+    return acc
+
+
+def shards(rows, n):
+    """split rows into at most n contiguous shards of nearly equal size; returns list of (start, rows)"""
+    if not rows:
+        return []
+    n = max(1, min(n, len(rows)))
+    size = (len(rows) + n - 1) // n
+    return [(i, rows[i:i + size]) for i in range(0, len(rows), size)]
+
+
+def run_cases(ctx, name, rows, header, case_type, gcase, okdef, nshards=14, weight=None):
+    """generic model-vs-implementation comparison: `okdef` defines `ok : case_type -> bool`; returns indices of bad rows or None on machinery failure.
+    weight(row) balances shards by input size."""
+    if weight is not None:
+        # greedy balance: sort by weight descending, assign to lightest shard, keep original indices
+        idx = sorted(range(len(rows)), key=lambda i: -weight(rows[i]))
+        k = max(1, min(nshards, len(rows)))
+        bins = [[] for _ in range(k)]
+        load = [0] * k
+        for i in idx:
+            j = load.index(min(load))
+            bins[j].append(i)
+            load[j] += weight(rows[i]) + 50
+        bins = [sorted(b) for b in bins if b]
+    else:
+        bins = [list(range(st, st + len(sh))) for st, sh in shards(rows, nshards)]
+    texts = []
+    for b in bins:
+        cases = glist(gcase(rows[i]) for i in b)
+        texts.append(header + "Definition cases : list (%s) := %s.\n%s\nDefinition M := Eval vm_compute in bad ok cases.\nPrint M.\n" % (case_type, cases, okdef))
+    res = coq_eval_many(ctx, name, texts)
+    bad = []
+    for b, (ok, o) in zip(bins, res):
+        m = parse_print(o, "M")
+        if not ok or m is None:
+            ctx.problem("correspondence", name + " evaluation", o[-800:])
+            return None
+        for i in zlist(m):
+            bad.append(b[i])
+    return sorted(bad)
+
+
 def parse_print(out, ident):
     """value printed by `Print ident.` : text between 'ident =' and the following ': type' line"""
     m = re.search(r'^%s\s*=\s*(.*?)\n\s*:\s' % re.escape(ident), out, re.S | re.M)
@@ -264,7 +327,7 @@ def gbytes(b):
     words = [str(len(b))]
     for i in range(0, len(b), 7):
         words.append(str(int.from_bytes(b[i:i + 7].ljust(7, b"\0"), "big")))
-    return "[" + ";".join(words) + "]"
+    return "[" + ";".join(words) + "]%uint63"
 
 
 def gz(x):
